@@ -788,10 +788,10 @@ func (am *AccountingManager) recoverOrphanedSessions() error {
 	sessionsPath := filepath.Join(am.persistPath, "sessions")
 	entries, err := os.ReadDir(sessionsPath)
 	if err != nil {
-		if os.IsNotExist(err) {
-			return nil
+		if !os.IsNotExist(err) {
+			return err
 		}
-		return err
+		entries = nil // no persisted sessions; pending records are still recovered below
 	}
 
 	for _, entry := range entries {
